@@ -47,7 +47,12 @@ func c09Text(k *h.Case, prog *spec.Program) *spec.TextVal {
 				cut++
 			}
 			if cut < len(s) {
-				s = s[:cut] + []string{"\n", "\n    ", "\r\n\t", "\n\n  "}[r.IntN(4)] + s[cut:]
+				cont := s[cut:]
+				if r.IntN(3) == 0 {
+					// the continuation line starts like a comment (it is text, not a comment)
+					cont = []string{"#", "//", "# ", "// "}[r.IntN(4)] + cont
+				}
+				s = s[:cut] + []string{"\n", "\n    ", "\r\n\t", "\n\n  "}[r.IntN(4)] + cont
 			}
 		}
 		t.Parts = append(t.Parts, s)
@@ -143,9 +148,16 @@ func runC09(ctx *h.Ctx) int {
 				exps = append(exps, exp{it.Name, sel, org, scopeGlobal(it.Scope, true)})
 			default: // inline argument
 				c := &spec.Cmd{ID: prog.NewID(), Name: g.Name("msgbox"), Args: []*spec.Arg{{Text: t}}}
+				exps = append(exps, exp{"", t, "inline", false})
+				// further string arguments of the same command (typed before plain, plain before typed, ...)
+				for extra := k.R.IntN(3); extra > 0; extra-- {
+					t2 := c09Text(k, prog)
+					c.Args = append(c.Args, &spec.Arg{Text: t2})
+					exps = append(exps, exp{"", t2, "inline", false})
+					k.Count("commands_with_several_string_arguments", 1)
+				}
 				script.Body.Stmts = append(script.Body.Stmts, &spec.CmdStmt{Cmd: c})
 				useScript = true
-				exps = append(exps, exp{"", t, "inline", false})
 			}
 		}
 		if useScript {
@@ -174,10 +186,16 @@ func runC09(ctx *h.Ctx) int {
 			}
 			for _, st := range script.Body.Stmts {
 				c := st.(*spec.CmdStmt).Cmd
-				if c.Args[0].Text == e.t {
+				for ai, a := range c.Args {
+					if a.Text != e.t {
+						continue
+					}
 					for j := range f.Lines {
 						if f.Lines[j].Kind == asm.KInstr && f.Lines[j].Op == c.Name {
-							e.label = f.Lines[j].Args
+							parts := strings.Split(f.Lines[j].Args, ",")
+							if ai < len(parts) {
+								e.label = strings.TrimSpace(parts[ai])
+							}
 						}
 					}
 				}
